@@ -57,6 +57,77 @@ def _run_pre(p):
         c0.inverse().to_unitary()
 
 
+_NUM_SETS = [
+    {"th0": 0.75, "th1": -1.25, "th2": 0.5, "th3": 2.0},
+    {"th0": 0.0, "th1": -7.25, "th2": 13.5, "th3": -0.0},  # zero, more than one turn, negative
+    {"th0": -1, "th1": -2, "th2": 1, "th3": 0},  # Python ints that look alike to a dictionary
+]
+
+
+def _bind_numbers(c, k):
+    from .c01 import _num_value
+
+    vs = _NUM_SETS[k]
+    return c.bind({s: vs.get(str(s), _num_value(str(s))) for s in c.free_symbols}) if c.free_symbols else c
+
+
+def _npm(M):
+    return np.asarray(CS.np_matrix(M, {}), dtype=complex)
+
+
+def _numeric_inverse_bad(specs, n, unitary):
+    """numeric twin (ground): every parameter a number BEFORE the construction is asked for - the branch a symbolic run cannot take"""
+    for k in range(len(_NUM_SETS)):
+        c = _bind_numbers(CS.circuit_from_spec(specs, n), k)
+        inv = c.inverse()
+        U, Ui = _npm(c.to_unitary()), _npm(inv.to_unitary())
+        if U.shape != Ui.shape:
+            return f"shape {Ui.shape} vs {U.shape}"
+        d = float(np.abs(Ui - U.conj().T).max())
+        if d > 1e-9 * (1 + float(np.abs(U).max())):
+            return f"numeric parameters (set {k}): inverse differs from the conjugate transpose by {d:.3g}"
+        if unitary:
+            d = float(np.abs(_npm((c + inv).to_unitary()) - np.eye(U.shape[0])).max())
+            if d > 1e-9:
+                return f"numeric parameters (set {k}): circuit + inverse differs from the identity by {d:.3g}"
+        d = float(np.abs(_npm(inv.inverse().to_unitary()) - U).max())
+        if d > 1e-9 * (1 + float(np.abs(U).max())):
+            return f"numeric parameters (set {k}): double inverse differs by {d:.3g}"
+        if not c.free_symbols and k == 0 and not CS.circuit_from_spec(specs, n).free_symbols:
+            break  # constant circuit: one run
+    return None
+
+
+def _numeric_controlled_bad(specs, n, kctl):
+    for k in range(len(_NUM_SETS)):
+        c = _bind_numbers(CS.circuit_from_spec(specs, n), k)
+        nq = c.n_qubits
+        cc = c.controlled(kctl)
+        U, Ucc = _npm(c.to_unitary()), _npm(cc.to_unitary())
+        blk = np.eye(2 << nq, dtype=complex)
+        blk[1 << nq :, 1 << nq :] = U
+        want = CS.np_embed(blk, [kctl] + [q + 1 if q >= kctl else q for q in range(nq)], nq + 1)
+        if cc.n_qubits < nq + 1:
+            Ucc = np.kron(Ucc, np.eye(1 << (nq + 1 - cc.n_qubits)))
+        if Ucc.shape != want.shape:
+            return f"shape {Ucc.shape} vs {want.shape}"
+        d = float(np.abs(Ucc - want).max())
+        if d > 1e-9 * (1 + float(np.abs(U).max())):
+            return f"numeric parameters (set {k}): controlled({kctl}) differs from |0><0|xI + |1><1|xU by {d:.3g}"
+        if not CS.circuit_from_spec(specs, n).free_symbols:
+            break
+    return None
+
+
+def _ground(res, clause, bad, what, p):
+    res.d["ground_instances"] += 1
+    res.ob(1)
+    if bad:
+        _cand(res, clause, f"{what}: {bad}", p, {}, clause)
+    else:
+        res.ob(0, 1, "ground-numeric")
+
+
 def _w_inverse(res, p):
     from orquestra.quantum.circuits import _circuit as CM
 
@@ -92,6 +163,9 @@ def _w_inverse(res, p):
         _decide(res, P, lambda F: mat_delta(F.alg, F.mat(both), meye(F.alg, N)), "circuit-plus-inverse", f"[{CS.spec_str(specs)}] + inverse is not the identity", p)
     _decide(res, P, lambda F: mat_delta(F.alg, F.mat(inv2), F.mat(U)), "double-inverse", "inverting twice changes the action", p)
     res.sample({"inverse_of": CS.spec_str(specs), "n": n})
+    if sym and not any("|exp" in g for g, _ in specs):  # constant circuits already ran on the numeric branch above
+        unitary = not any(g.startswith(("G", "K")) and g[1:2].isdigit() for g, _ in specs)
+        _ground(res, "inverse-numeric", _numeric_inverse_bad(specs, n, unitary), f"inverse of [{CS.spec_str(specs)}]", p)
 
 
 def _w_controlled(res, p):
@@ -131,6 +205,8 @@ def _w_controlled(res, p):
 
     _decide(res, P, b, "controlled-action", f"controlled({k}) of [{CS.spec_str(specs)}] is not |0><0|xI + |1><1|xU with shifted indices", p)
     res.sample({"controlled": CS.spec_str(specs), "control_index": k, "n": n})
+    if c.free_symbols and not any("|exp" in g for g, _ in specs):
+        _ground(res, "controlled-numeric", _numeric_controlled_bad(specs, p["n"], k), f"controlled({k}) of [{CS.spec_str(specs)}]", p)
 
 
 FACTORIES = {"X": 0, "H": 0, "RX": 1, "RZ": 1, "RY": 1, "PHASE": 1, "U3": 3, "Delay": 1}
@@ -386,6 +462,13 @@ def replay(data):
 
     try:
         _run_pre(inp)
+        if clause == "inverse-numeric":
+            specs = [tuple(s) for s in inp["specs"]]
+            bad = _numeric_inverse_bad(specs, inp["n"], not any(g.startswith(("G", "K")) and g[1:2].isdigit() for g, _ in specs))
+            return bool(bad), bad or "ok"
+        if clause == "controlled-numeric":
+            bad = _numeric_controlled_bad([tuple(s) for s in inp["specs"]], inp["n"], inp["k"])
+            return bool(bad), bad or "ok"
         if clause.startswith("inverse") or clause in ("circuit-plus-inverse", "double-inverse"):
             c = CS.circuit_from_spec([tuple(s) for s in inp["specs"]], inp["n"])
             inv = c.inverse()
